@@ -13,8 +13,8 @@ use verif_rt::thread::spawn_client;
 use verif_rt::{choose, log, quiesce, Ev, Gate};
 
 pub const CALLS: [&str; 19] = [
-    "with_name(a)",
-    "with_name(b)",
+    "with_name(alpha)",
+    "with_name(bravo)",
     "with_name()",
     "with_reducer",
     "with_reducers[2]",
@@ -82,8 +82,8 @@ fn body(len: usize, with_reducer_ctor: bool) {
         let r1 = if i < 4 { 1 + i as u32 } else { 6 }; // 1..=4, 6 (len <= 5; 5 and 7 are taken)
         let m1 = 10 + 2 * i as u32;
         b = match c {
-            0 => { m.name = "a".into(); b.with_name("a".into()) }
-            1 => { m.name = "b".into(); b.with_name("b".into()) }
+            0 => { m.name = "alpha".into(); b.with_name("alpha".into()) }
+            1 => { m.name = "bravo".into(); b.with_name("bravo".into()) }
             2 => { m.name = "".into(); b.with_name("".into()) }
             3 => { m.reducers = vec![r1]; m.wr_current = false; b.with_reducer(red(r1, &knobs)) }
             4 => { m.reducers = vec![r1, 5]; m.wr_current = false; b.with_reducers(vec![red(r1, &knobs), red(5, &knobs)]) }
@@ -122,7 +122,7 @@ fn body(len: usize, with_reducer_ctor: bool) {
     for x in &m.mws {
         log(Ev::Note { what: "model_mw", a: *x as i64, b: 0 });
     }
-    log(Ev::Note { what: if m.name == "a" { "model_name_a" } else if m.name == "b" { "model_name_b" } else { "model_name_store" }, a: 0, b: 0 });
+    log(Ev::Note { what: if m.name == "alpha" { "model_name_a" } else if m.name == "bravo" { "model_name_b" } else { "model_name_store" }, a: 0, b: 0 });
     let store = match b.build() {
         Ok(s) => {
             log(Ev::Note { what: "build", a: 1, b: 0 });
@@ -182,10 +182,13 @@ pub fn check(r: &ExecResult) -> Vec<Finding> {
         f.push(fnd("builder-middlewares", format!("builder calls {:?}: middlewares that ran {:?}, configured {:?}", calls_s, got_mw, want_mw)));
     }
     // name: the pool's threads carry it
-    let want_name = if notes(r, "model_name_a").next().is_some() { "a" } else if notes(r, "model_name_b").next().is_some() { "b" } else { "store" };
+    let want_name = if notes(r, "model_name_a").next().is_some() { "alpha" } else if notes(r, "model_name_b").next().is_some() { "bravo" } else { "store" };
     if let Some(t) = pipe(r).reducer_task {
         let n = &r.task_names[t as usize].0;
-        if !n.starts_with(&format!("{}-pool_thread_", want_name)) {
+        // how the name is woven into thread names is the implementation's business: it only has
+        // to be the configured one and none of the others
+        let others = ["alpha", "bravo", "store"];
+        if !n.contains(want_name) || others.iter().any(|o| *o != want_name && n.contains(o)) {
             f.push(fnd("builder-name", format!("builder calls {:?}: reducer thread is called {} but the configured name is {:?}", calls_s, n, want_name)));
         }
     }
